@@ -407,9 +407,40 @@ let run_history_case c =
   let objs = Array.of_list (List.map dec_host (if field c "objs" = "" then [] else split_top (field c "objs") ';')) in
   let ops = if field c "ops" = "" then ["prepare:opt"; "exec:0"] else String.split_on_char ';' (field c "ops") in
   let ops = List.map (dec_op objs) ops in
-  let res = run_history stdlib_oracle (nat_of_int !default_fuel) (new_eval src) ops in
-  let parts = List.mapi (fun i r -> Printf.sprintf "o%d=%s" i (enc_opres r)) res in
-  Printf.printf "id=%s\tn=%d\t%s\n" (field c "id") (List.length res) (String.concat "\t" parts)
+  let fuel = nat_of_int !default_fuel in
+  (* the reference interpreter (Spec/Exec.v) on the syntax tree, from the same state, for every Execute/Run *)
+  let spec_of (e : eval) (ob : hostval) : string =
+    match e.emachine with
+    | None -> "na"
+    | Some mc ->
+      (match parse_script parse_float_oracle max_depth e.escript with
+       | ParseOk ast ->
+         let m0 = { stk = []; menv = e.eenv; trace = []; polls = mc.mctx } in
+         if mc.mctx <> None then "na" else
+         (match sblock stdlib_oracle e.efns ob fuel ast m0 with
+          | XNormal m -> Printf.sprintf "ok|n|%s|%s" (enc_trace (List.rev m.trace)) (enc_vars m.menv.globals)
+          | XReturn (v, m) -> Printf.sprintf "ok|%s|%s|%s" (enc_value v) (enc_trace (List.rev m.trace)) (enc_vars m.menv.globals)
+          | XErr (ENeedOracle, _) | XErr (EFuel, _) -> "na"
+          | XErr (x, m) ->
+            let c = (match x with EScript -> "script-error" | EInternal -> "internal-error" | ETimeout -> "timeout"
+                              | EPanic -> "panic-recovered" | _ -> "other") in
+            Printf.sprintf "%s|n|%s|%s" c (enc_trace (List.rev m.trace)) (enc_vars m.menv.globals))
+       | _ -> "na") in
+  let rec loop (e : eval) (ops : op list) (i : int) (acc : string list) (specs : string list) =
+    match ops with
+    | [] -> (List.rev acc, List.rev specs)
+    | x :: rest ->
+      let sp = (match x with
+                | OExec ob | ORun ob -> [Printf.sprintf "s%d=%s" i (spec_of e ob)]
+                | _ -> []) in
+      let (r, e') = step stdlib_oracle fuel e x in
+      let acc' = Printf.sprintf "o%d=%s" i (enc_opres r) :: acc in
+      (match r with
+       | RNeed | RFuel -> (List.rev acc', List.rev specs)
+       | _ -> loop e' rest (i + 1) acc' (sp @ specs)) in
+  let (parts, specs) = loop (new_eval src) ops 0 [] [] in
+  Printf.printf "id=%s\tn=%d\t%s%s\n" (field c "id") (List.length parts) (String.concat "\t" parts)
+    (if specs = [] then "" else "\t" ^ String.concat "\t" specs)
 
 (* ---------- case kinds ---------- *)
 let lex_case c =
